@@ -47,7 +47,8 @@ def tipnum(t):
 WASH_DEFAULT = dict(tips=[1, 2], waste_location=[52, 2], cleaner_location=[52, 1], arm=0, waste_vol=3.0, waste_delay=500, cleaner_vol=4.0, cleaner_delay=500, airgap=10, airgap_speed=70, retract_speed=30, fastwash=1, low_volume=0)
 # parameter -> [(value, valid)]
 WASH_CLASSES = {
-    "tips": [([{"$tip": "T1"}, 8], True), ([3], True), ([1, 2, 3, 4, 5, 6, 7, 8], True), ([0], False), ([9], False)],
+    "tips": [([{"$tip": "T1"}, 8], True), ([3], True), ([1, 2, 3, 4, 5, 6, 7, 8], True), ([0], False), ([9], False),
+             ({"$iter": [1, {"$tip": "T3"}, 8]}, True), ({"$tuple": [2, 4]}, True), ({"$iter": [1, 9]}, False), ({"$iter": [{"$tip": "Any"}]}, False)],
     "waste_location": [([0, 2], False), ([1, 1], True), ([67, 128], True), ([68, 2], False), ([52, 0], False), ([52, 129], False), ([1.0, 2], False), ([52, "1"], False)],
     "cleaner_location": [([0, 1], False), ([1, 128], True), ([67, 1], True), ([68, 1], False), ([52, 0], False), ([52, 129], False)],
     "arm": [(-1, False), (1, True), (2, False), ({"$none": 1}, False)],
@@ -150,6 +151,11 @@ class Harness(cm.BaseB):
                             for c in names[names.index(b) + 1 :]:
                                 for vc in (0, 1):
                                     yield {"k": "wash", "dev": {a: va, b: vb, c: vc}}
+
+    def after_clear(self):
+        # a caller has overwritten what the public helpers handed out for the geometries used here
+        for R, C in ((2, 3), (2, 2), (3, 2), (8, 3), (1, 2), (4, 2), (2, 120)):
+            cm.vandalize_helpers(R, C)
 
     def one(self, case):
         return getattr(self, "one_" + case["k"])(case)
@@ -419,7 +425,10 @@ class Harness(cm.BaseB):
         except gwl.ParseError as e:
             return "wash:unparsable", repr(case), [("C13/wash-unparsable", f"{wl[-1]!r}: {e}")]
         mask = 0
-        for t in kw["tips"]:
+        tips_raw = kw["tips"]
+        if isinstance(tips_raw, dict):
+            tips_raw = tips_raw.get("$iter") or tips_raw.get("$tuple")
+        for t in tips_raw:
             mask |= 1 << (tipnum(t) - 1)
         exp = {
             "tip_mask": mask,
